@@ -47,6 +47,10 @@ CHECKS = {
             "Lean 4 structural induction over decorator stacks (any depth/order of PoolDecorator, Logger, Standardiser, Buffer) + a model of %-template validation + differential correspondence with capturing log handlers + independent oracle",
             "Supply/utilisation/allocation equal the base pool's through every stack and are untouched by demand reads/writes; plain/Logger stacks pass demand reads and writes through; every Logger emits exactly one record per write, before the write, with the value and the target's pre-write state; templates naming an unknown field are rejected at construction: Lean theorems; tied to _proxy.py, logger.py, standardiser.py, buffer.py by op sequences on generated stacks and by generated templates (known field names regenerated from _LOGGER_TEST_FIELDS on every run).",
             "Trusted: Lean kernel + standard axioms; model (sampling correspondence); logging module (one record per log call); CPython % formatting (modelled subset, compared)."),
+    "C18": ("§6 C18",
+            "constructor tables regenerated from the live loader class into Lean on every run and table_safe re-proved by kernel computation (decide +kernel); Lean induction over document trees for the dispatch model; canary documents loaded in a child process as correspondence and failing-input search",
+            "For the regenerated table of the loader class that core.config.load really uses: no python/* tag registered, no prefix constructors, unknown tags fall to construct_undefined, every entry a SafeConstructor method of a standard tag or a plugin constructor of the entry-point group; hence (theorems, any document depth) a python/* or unregistered tag anywhere makes loading fail and only registered constructors ever run. Tied to the code by regeneration (translator from the live class) plus documents with side-effect canaries.",
+            "Trusted: Lean kernel + standard axioms; harness/vh/tables.py (introspection translator); PyYAML scanner/parser/composer and the modelled construct_object dispatch order; canaries."),
 }
 
 PENDING_REASON = "check not built yet in this session (planned: Lean model + proof + correspondence, see DESIGN.md work order); not claimed until its check exists"
